@@ -482,6 +482,7 @@ def _harness(ctx, cfg):
         act, exc, info = other(ctx, p, cfg)
     ctx.input("action", kind)
     ctx.input("enable_mid", cfg.get("enable_mid"))
+    ctx.input("disable_mid", cfg.get("disable_mid"))
     ctx.env.update(action=kind)
     g, seg, tr = p.g, p.seg, p.tr
     S1 = Snap(p, k)
@@ -596,12 +597,36 @@ def _harness(ctx, cfg):
             p.rp_keys = list(p.rp_keys) + [mid]
         ctx.tag("mid_enabled")
         post_obligations(":after_mid_enable", Snap(p, k), seg.c.copy())
-    if want("C01") or want("C07") or want("C08") or want("C09") or want("C20") or want("C06"):
+    dmid = cfg.get("disable_mid")
+    if dmid:
+        # a feature is switched OFF between the edit and its undo: the undo must leave its stored values alone
+        tr.disable_features([dmid])
+        if dmid == "iou":
+            p.with_iou = False
+        else:
+            p.rp_keys = [x for x in p.rp_keys if x != dmid]
+        ctx.tag("mid_disabled")
+        raw_n1 = [dict(d) for d in g.nattr]
+        raw_e1 = {e: dict(d) for e, d in g.eattr.items()}
+        al1 = list(S1.sh.al)
+        A1 = [list(r) for r in S1.sh.A]
+    if want("C01") or want("C07") or want("C08") or want("C09") or want("C20") or want("C06") or dmid:
         del p.emitted[:]
         try:
             r1 = tr.undo()
             S2 = Snap(p, k)
             seg2 = seg.c.copy()
+            if dmid and want("C10"):
+                cs = []
+                if dmid == "iou":
+                    for (a, b), d in raw_e1.items():
+                        cs.append(Implies(And(A1[a][b], S2.sh.A[a][b]),
+                                          same_value(d.get("iou"), g.eattr.get((a, b), {}).get("iou"))))
+                else:
+                    for i in range(g.N):
+                        cs.append(Implies(And(al1[i], S2.sh.al[i]),
+                                          same_value(raw_n1[i].get(dmid), g.nattr[i].get(dmid))))
+                ctx.oblige("C10.disabled_feature_untouched_by_undo", And(cs), "C10")
             e2 = list(p.emitted)
             del p.emitted[:]
             r2 = tr.redo()
